@@ -377,7 +377,7 @@ func (s *seqState) stepOnce() {
 		if resort {
 			cols, asc = s.lastBy, s.lastAsc // the very same request again
 		}
-		if s.mode == "c06" && !resort && r.Chance(10) {
+		if (s.mode == "c06" || s.mode == "c20") && !resort && r.Chance(10) {
 			// a longer key list: a repeated name followed by (or preceded by) further keys
 			if ks := keysOf(f); len(ks) >= 2 {
 				cols = append([]string{ks[0], ks[0]}, ks[1:]...)
@@ -429,8 +429,21 @@ func (s *seqState) stepOnce() {
 		e.Strs(sub)
 		e.Str(keep)
 		e.Bool(inplace)
+		// the variadic forms: no option struct at all (when the request is the default one), or a second struct, which
+		// is ignored
+		form := r.Intn(6)
 		status, _ = guard(func() error {
-			res, err := f.DropDuplicates(dataframe.DropDuplicatesOption{Subset: sub, Keep: keep, Inplace: inplace})
+			var res *DF
+			var err error
+			opt := dataframe.DropDuplicatesOption{Subset: sub, Keep: keep, Inplace: inplace}
+			switch {
+			case form == 0 && len(sub) == 0 && keep == "" && !inplace:
+				res, err = f.DropDuplicates()
+			case form == 1:
+				res, err = f.DropDuplicates(opt, dataframe.DropDuplicatesOption{Subset: []string{"zz"}, Keep: "none", Inplace: !inplace})
+			default:
+				res, err = f.DropDuplicates(opt)
+			}
 			if inplace {
 				if err == nil && res != f {
 					return fmt.Errorf("inplace result is not the receiver")
